@@ -32,6 +32,8 @@ class CallGraph:
         self.mt = tf.mt
         self.edges: dict[str, set[str]] = defaultdict(set)
         self.fallback_edges: list[tuple[str, str, str]] = []
+        self.edge_sites: dict[tuple[str, str], set[int]] = defaultdict(set)   # (owner, target) -> source lines
+        self._cur_line = 0
         self.external_calls: dict[str, list] = defaultdict(list)   # caller -> [(fullname or text, mypy CallExpr)]
         self.funcs: dict[str, object] = {}        # qual -> mypy FuncDef (or None for pseudo nodes)
         self.calls_in: dict[str, list] = defaultdict(list)   # qual -> mypy CallExpr nodes
@@ -92,8 +94,13 @@ class CallGraph:
                 for dec in st.decorators:
                     self._scan_expr(dec, owner, mod, cls)
                 cowner = f'{q}.<class>'
-                self.edges[owner].add(cowner)
+                self._edge(owner, cowner)
                 self._scan_block(st.defs.body, cowner, mod, q)
+                # using a class may run its special methods implicitly (len(), iteration, ==, hash, repr)
+                for d in st.defs.body:
+                    fd = d.func if isinstance(d, n.Decorator) else d
+                    if isinstance(fd, n.FuncDef) and fd.name.startswith('__') and fd.name.endswith('__') and fd.name != '__init__':
+                        self.edges[cowner].add(f'{q}.{fd.name}')
             else:
                 self._scan_stmt(st, owner, mod, cls)
 
@@ -114,10 +121,10 @@ class CallGraph:
             if isinstance(st, n.Decorator):
                 for dec in st.decorators:
                     self._scan_expr(dec, owner, mod, cls)
-                self.edges[owner].add(f'{owner}.{st.func.name}')      # nested function: referenced by definition
+                self._edge(owner, f'{owner}.{st.func.name}')      # nested function: referenced by definition
                 self._scan_func(st.func, owner, mod, cls)
             elif isinstance(st, n.FuncDef):
-                self.edges[owner].add(f'{owner}.{st.name}')
+                self._edge(owner, f'{owner}.{st.name}')
                 self._scan_func(st, owner, mod, cls)
             else:
                 self._scan_stmt(st, owner, mod, cls)
@@ -162,12 +169,16 @@ class CallGraph:
     def _scan_expr(self, e, owner, mod, cls):
         self._scan_stmt(e, owner, mod, cls)
 
+    def _edge(self, owner, target):
+        self.edges[owner].add(target)
+        self.edge_sites[(owner, target)].add(self._cur_line)
+
     # ---- resolution ----------------------------------------------------------------------------------
     def _add(self, owner, target_full):
         s = short(target_full)
         if s is None:
             return False
-        self.edges[owner].add(s)
+        self._edge(owner, s)
         return True
 
     def _method_targets(self, info, name):
@@ -204,6 +215,8 @@ class CallGraph:
 
     def _visit_expr(self, x, owner, mod, cls):
         n = self.nodes
+        if getattr(x, 'line', -1) and x.line > 0:
+            self._cur_line = x.line
         if isinstance(x, n.CallExpr):
             self.calls_in[owner].append(x)
         if isinstance(x, n.NameExpr):
@@ -213,7 +226,7 @@ class CallGraph:
             elif isinstance(nd, n.TypeInfo):
                 s = short(nd.fullname)
                 if s:
-                    self.edges[owner].add(s + '.<class>')
+                    self._edge(owner, s + '.<class>')
                     for base in nd.mro:
                         sym = base.names.get('__init__')
                         if sym is not None and getattr(sym.node, 'fullname', None) and short(sym.node.fullname):
@@ -238,24 +251,24 @@ class CallGraph:
                     modq = self.modnames.get(x.expr.node.fullname)
                     if modq is not None:
                         if f'{modq}.{x.name}' in self.funcs:
-                            self.edges[owner].add(f'{modq}.{x.name}')
+                            self._edge(owner, f'{modq}.{x.name}')
                         elif x.name in self.src.mods[modq].classes:
-                            self.edges[owner].add(f'{modq}.{x.name}.<class>')
+                            self._edge(owner, f'{modq}.{x.name}.<class>')
                             init = self.src.find_method(f'{modq}.{x.name}', '__init__')
                             if init:
-                                self.edges[owner].add(init)
+                                self._edge(owner, init)
                 return
             t = self.tf.types.get(x.expr)
             infos = self._infos_of_type(t)
             resolved = False
             for info in infos:
                 for tgt in self._method_targets(info, x.name):
-                    self.edges[owner].add(tgt)
+                    self._edge(owner, tgt)
                     resolved = True
             if not infos and (t is None or self.tf.is_any(t)):
                 # Any-typed receiver: name-based fallback restricted to package methods
                 for q in self.methods_by_name.get(x.name, []):
-                    self.edges[owner].add(q)
+                    self._edge(owner, q)
                     self.fallback_edges.append((owner, q, x.name))
             return
 
